@@ -1,10 +1,10 @@
 SPECIFICATION Spec
 CONSTANTS
-  CRev = 54460
+  CRev = 54457
   SRev = 54460
-  Behaviour = "late"
-  CancelAt = 99
-  Delay = 3
+  Behaviour = "blockw"
+  CancelAt = 1
+  Delay = 0
   Limit = 5
   AddendumRev = 54458
   RetryTimeouts = TRUE
